@@ -1,4 +1,4 @@
-From Corankco Require Import Prelude Scheme Rank Borda Applicability Judge.JC19.
+From Corankco Require Import Prelude Scheme Rank Borda Partition Applicability Judge.JC19.
 Local Open Scope Z_scope.
 
 (** observed: predicate 0/1 (2 = it raised), outcome of compute on a complete and on an incomplete dataset:
@@ -12,3 +12,17 @@ Definition judge_applic (c : alg * scheme * Z * Z * Z) : nat :=
   let spec := ((pred =? 0) || (pred =? 1)) && (oc =? 0) && (negb (pred =? 1) || (oi =? 0))
               && (negb (simple a) || Bool.eqb (oi =? 1) (pred =? 0)) && negb (oi =? 2) in
   code m spec.
+
+(** the outcome of a computation as observed: a documented refusal, any other exception, or the consensus rankings that came back together
+    with the universe of the dataset as it was handed over.  Whether what came back is a well-formed consensus (exactly one ranking, a
+    partition of the universe into non-empty buckets) is decided here, not by the harness. *)
+Fixpoint distinct (l : list nat) : bool := match l with [] => true | x :: l' => negb (mem x l') && distinct l' end.
+Inductive outcome := ORefused | ORaised | OReturned (U : list nat) (cons : list ranking).
+Definition code_of (o : outcome) : Z :=
+  match o with
+  | ORefused => 1
+  | ORaised => 2
+  | OReturned U cs => if Nat.eqb (length cs) 1 && distinct U && forallb (fun c => is_partition_of U c && distinct (elems c)) cs then 0 else 2
+  end.
+Definition judge_applic_obs (c : alg * scheme * Z * outcome * outcome) : nat :=
+  let '(a, s, pred, oc, oi) := c in judge_applic (a, s, pred, code_of oc, code_of oi).
